@@ -312,13 +312,38 @@ def _dtype(it, a):
 
 
 def _shape(it, a):
-    return SShape(arr_scalar(a), arr_size(a))
+    return SShape(arr_scalar(a), arr_size(a), owner=shape_owner(a))
+
+
+_OWNERS = {}
+
+
+def shape_owner(a):
+    """integer token of the array object whose shape is meant (views may have other shapes)"""
+    return _OWNERS.setdefault(id(a), len(_OWNERS) + 1)
+
+
+dimlen = z3.Function("np_dimlen", z3.IntSort(), z3.IntSort(), z3.IntSort())
+ndim_of = z3.Function("np_ndim", z3.IntSort(), z3.IntSort())
+
+
+def dim_length(it, owner, k):
+    """a.shape[k] as a term: consistent across reads; negative k counts from the end"""
+    o = z3.IntVal(owner)
+    n = ndim_of(o)
+    t = dimlen(o, z3.IntVal(k))
+    it.assume(t >= 0)
+    it.assume(n >= 0)
+    if k < 0:
+        it.assume(z3.Implies(n + k >= 0, t == dimlen(o, n + k)))
+    return t
 
 
 class SShape(SV):
-    def __init__(self, scalar, size):
+    def __init__(self, scalar, size, owner=None):
         self.scalar = scalar
         self.size = size
+        self.owner = owner
 
     def sv_pyclass(self):
         return "tuple"
@@ -336,10 +361,17 @@ class SShape(SV):
         return NotImplemented
 
     def sv_getitem(self, it, key):
+        if self.owner is not None and isinstance(key, int):
+            n = ndim_of(z3.IntVal(self.owner))
+            it.assume((n == 0) == to_z3(self.scalar))
+            return dim_length(it, self.owner, key)
         return it.fresh_int("dimlen")
 
     def sv_len(self, it):
-        n = it.fresh_int("ndim")
+        if self.owner is not None:
+            n = ndim_of(z3.IntVal(self.owner))
+        else:
+            n = it.fresh_int("ndim")
         it.assume(n >= 0)
         it.assume((n == 0) == to_z3(self.scalar))
         return n
